@@ -103,7 +103,7 @@ def _weighted_calibration_input_check(
             f"`input` shape ({input.shape}) is different from `target` shape ({target.shape})"
         )
     if num_tasks == 1:
-        if len(input.shape) > 1:
+        if len(input.shape) != 1:
             raise ValueError(
                 f"`num_tasks = 1`, `input` is expected to be one-dimensional tensor, but got shape ({input.shape})."
             )
